@@ -223,7 +223,7 @@ static void text_reporter_finish_suite(TestReporter *reporter, const char *file,
         char buf[1000];
         char prepend[100];
 
-        sprintf(prepend, "  \"%s\": ", name);
+        snprintf(prepend, sizeof(prepend), "  \"%s\": ", name);
         text_reporter_print_results(buf, prepend,
                 reporter->passes,
                 reporter->failures,
@@ -241,7 +241,7 @@ static void text_reporter_finish_suite(TestReporter *reporter, const char *file,
         // Report totals
         if (get_breadcrumb_depth((CgreenBreadcrumb *) reporter->breadcrumb) == 0) {
             if (!have_quiet_mode(reporter) && !inhibit_finish_suite_message(reporter)) {
-                sprintf(prepend, "Completed \"%s\": ", name);
+                snprintf(prepend, sizeof(prepend), "Completed \"%s\": ", name);
                 text_reporter_print_results(buf, prepend,
                                             reporter->total_passes,
                                             reporter->total_failures,
